@@ -266,6 +266,12 @@ func (m *Model) Expect(o Op, writable bool) Exp {
 			if len(o.Vals) == 0 {
 				return Exp{ErrOK: true}
 			}
+		case "SMove1", "SMove2":
+			// moving a non-member is the answer "false" with nothing to write: no property asks a read-only
+			// transaction to turn that into an error (it must only have no effect)
+			if !m.S[o.B][string(o.Key)][string(o.Val)] {
+				return Exp{V: "false", ErrOK: true}
+			}
 		}
 		return Exp{Err: true}
 	}
